@@ -352,6 +352,12 @@ def run(ctx: core.Ctx):
         finally:
             env.close()
 
+    # ---- real sockets: what the transport does with what it is handed (partial writes, its own buffer): a 12 MB result to a slow
+    #      reader arrives intact, plain / TLS / behind a small send buffer
+    rsw = core.realsock_witness(core.realsock(ctx, ["slow_reader"]))
+    if rsw and not ctx.violations:
+        core.report_violation(ctx, "over real sockets a result is not delivered as the packets the server wrote", rsw)
+
     # ---- B3: read side, arrival histories (model evaluated in Coq) -------------------------------
     streams = [gen_stream(rng) for _ in range(60 if ctx.quick else 600)]
     rcases = []
